@@ -66,12 +66,12 @@ def boundVals (bs : List Bound) : List Ty := lowers bs ++ uppers bs ++ (oneOfs b
 /-- every value `solve` compares, unites or returns while working on `bs` -/
 def reach (bs : List Bound) : List Ty := boundVals bs ++ trail le join {} bs
 
-/-- On the non-`Any` members of `V`: `le` is reflexive and transitive, `join` is an upper bound of
-its operands and lies below every common upper bound. -/
+/-- On the non-`Any` members of `V`: `le` is reflexive and transitive, `join` is not `Any`, is an upper
+bound of its operands and lies below every common upper bound. -/
 def lawsOn (V : List Ty) : Bool :=
   let W := V.filter fun t => !isAny t
   W.all fun a => le a a &&
-    W.all fun b => le a (join a b) && le b (join a b) &&
+    W.all fun b => !isAny (join a b) && le a (join a b) && le b (join a b) &&
       W.all fun c => (!(le a b && le b c) || le a c) && (!(le a c && le b c) || le (join a b) c)
 
 /-! ### exception classes -/
